@@ -480,6 +480,15 @@ def check_prefix_input(out, facts):
             uses = rv.count('remaining#%s' % rem[0][1])
             tests = rv.count('= remaining#%s' % rem[0][1]) + rv.count('match remaining#%s' % rem[0][1])
             ok = rv.count(summed) == 1 and ('Some(' + summed + ')') in rv and 'None' in rv and uses == 1 + tests and rv.startswith(('Ok(', 'match', 'if'))
+            if not ok:
+                # other spellings (`Option::map`, `usize::from(prefix.is_some())`): the value is a function of the wrapped
+                # input's answer applied through map / a match, adding 1 exactly when a prefix byte is pending
+                import re as _re
+                u_ = rem[0][1]
+                pend = r'(count\(iter\(self\.prefix\)\)|conv\(is_some\(self\.prefix\)\)|\(is_some\(self\.prefix\) as usize\))'
+                pat_ = r'^Ok\((Ok\()?(Some\()?saturating_add\((unwrap\(remaining#%s\)|remaining#%s\.Some\.0), %s\)\)*$' % (u_, u_, pend)
+                mapped = contains(v, lambda x: isinstance(x, tuple) and x and x[0] == 'call' and x[1] == 'map') or 'unwrap(remaining#' in rv
+                ok = bool(_re.match(pat_, rv)) and uses == 1 and (mapped or 'None' in rv)
         out.ob('R04.5', 'PrefixInput::remaining_len [%s]' % cfg, ok, 'remaining_len does not add the pending prefix byte: ' + sym.vstr(v), g['loc'])
 
 
